@@ -78,6 +78,8 @@ def main(tier, seed):
         if len(rep.samples) < 4 and rec.get('code'):
             rep.samples.append(dict(signature=rec['src'].splitlines()[0], paths=rec.get('paths'), wrapper_text_tail=rec['code'][-500:], obligations=[f"{o['name']}:{o['status']}" for o in rec['obligations'][:12]]))
     # (F) iter_func_args on real code objects: bounded stand-in, labelled bounded
+    from props import c04_iter
+    c04_iter.safe(rep)
     b = iter_func_args_bounded(rep, tier)
     files = ['beartype/_decor/_nontype/_wrap/_wrapargs.py', 'beartype/_decor/_nontype/_wrap/_wrapreturn.py', 'beartype/_decor/_nontype/_wrap/wrapmain.py',
              'beartype/_data/check/code/func/datacodefuncwrap.py', 'beartype/_util/func/arg/utilfuncargiter.py', 'beartype/_util/func/arg/utilfuncarglen.py']
